@@ -114,7 +114,7 @@ def _check(case):
         p = progs.build_pipeline(prog)
         progs.set_log(None)
         try:
-            res = p.map(progs.real_inputs(prog), run_folder=folder, parallel=False, storage=_storage_arg(prog, st))
+            res = p.map(progs.real_inputs(prog), run_folder=folder, parallel=False, storage=_storage_arg(prog, st), **progs.map_kwargs(prog))
         except Exception as e:  # noqa: BLE001
             return [f"map-raised-{type(e).__name__}: {str(e)[:150]}"]
         produced = {o: progs.to_nested(res[o].output) for o in outs}
